@@ -1902,3 +1902,18 @@ VM('C08', 'stop-data-truthiness', [(S2, "        if self._stop_data is not None 
                                   (S2, "        if self._stop_data is not None and self._ctrl_coro == self._ctrl_start:", "        if self._stop_data and self._ctrl_coro == self._ctrl_start:")], 'R08.8')
 V('C08', 'outputfunc-stop-data-truthiness', S2, "        if self._stop_data is not None:\n            self._event_put(**self._stop_data)\n        super().stop()", "        if self._stop_data:\n            self._event_put(**self._stop_data)\n        super().stop()", 'R08.8')
 V('C14', 'shutdown-cancels-without-recording', SIM, "        self.abort(asyncio.CancelledError('shutdown'))\n        try:\n            await self._simtask", "        self._simtask.cancel('shutdown')\n        try:\n            await self._simtask", 'R14.1')
+
+# ---- mutation-sweep survivors turned into variants
+V('C18', 'interval-check-and', S1, "        if self._interval is None or self._interval <= 0.0:\n            raise ValueError(\"interval must be positive\")\n        if count", "        if self._interval is None and self._interval <= 0.0:\n            raise ValueError(\"interval must be positive\")\n        if count", 'R18.4')
+V('C18', 'interval-zero-accepted', S1, "        if self._interval is None or self._interval <= 0.0:\n            raise ValueError(\"interval must be positive\")\n        if count", "        if self._interval is None or self._interval < 0.0:\n            raise ValueError(\"interval must be positive\")\n        if count", 'R18.4')
+V('C17', 'restore-validates-only-without-input', S2, "        if len(istate) > 2 and 'input' in istate[2]:", "        if len(istate) > 2 and 'input' not in istate[2]:", 'R17.3r')
+V('C17', 'restore-validation-result-dropped', S2, "            istate = [*istate[:2], sdata]\n", "            pass\n", 'R17.3r')
+V('C17', 'restore-length-off-by-one', S2, "        if len(istate) > 2 and 'input' in istate[2]:", "        if len(istate) > 3 and 'input' in istate[2]:", 'R17.3r')
+E('C17', 'restore-length-ge', S2, "        if len(istate) > 2 and 'input' in istate[2]:", "        if len(istate) >= 3 and 'input' in istate[2]:")
+
+# ---- C07 R07.8 (delay formula and midnight wrap; mutation-sweep survivors)
+V('C07', 'midnight-wrap-dropped', CRON, "                    sleeptime += SEC_PER_DAY\n", "                    pass\n", 'R07.8')
+V('C07', 'midnight-wrap-or', CRON, "                if nowt.hour == 23 and wakeup.hour == 0:", "                if nowt.hour == 23 or wakeup.hour == 0:", 'R07.8')
+V('C07', 'delay-minutes-scaled-as-hours', CRON, "                    + SEC_PER_MIN*(wakeup.minute - nowt.minute)", "                    + SEC_PER_HOUR*(wakeup.minute - nowt.minute)", 'R07.8')
+V('C07', 'delay-sign-of-seconds', CRON, "                    + (wakeup.second - nowt.second)", "                    + (nowt.second - wakeup.second)", 'R07.8')
+E('C07', 'delay-terms-reordered', CRON, "                sleeptime = (SEC_PER_HOUR*(wakeup.hour - nowt.hour)\n                    + SEC_PER_MIN*(wakeup.minute - nowt.minute)", "                sleeptime = (SEC_PER_MIN*(wakeup.minute - nowt.minute)\n                    + SEC_PER_HOUR*(wakeup.hour - nowt.hour)")
